@@ -66,7 +66,7 @@ class CallMixin:
         if isinstance(ty, TObj):
             info = S.CLASSES[ty.cls]
             for cls in [ty.cls] + list(info.get("bases", ())):
-                q = "%s.%s.%s" % (S.CLASSES[cls]["module"], cls, name)
+                q = "%s.%s.%s" % (S.CLASSES[cls]["module"], S.CLASSES[cls].get("source_class", cls), name)
                 if q in S.REGISTRY:
                     args, kw = self.eval_args(node, st)
                     return self.call_contract(S.REGISTRY[q], [recv] + args, kw, node, st, recv_node=recv_node)
@@ -149,6 +149,7 @@ class CallMixin:
     def fresh_witnesses(self, con):
         """Skolem functions of a callee's postcondition (it proved they exist)."""
         out = {}
+        self.last_call_witnesses = out
         for name, (doms, rng) in getattr(con, "witness_sig", {}).items():
             out[name] = z3.Function(fresh_name("wit_" + name), *([sort_of(d) for d in doms] + [sort_of(rng)]))
         return out
@@ -353,6 +354,9 @@ class CallMixin:
         if h:
             return Val(TBool, h(self, v, names, node, st))
         if isinstance(v.ty, TObj):
+            hook = S.CLASSES[v.ty.cls].get("isinstance")
+            if hook:
+                return Val(TBool, hook(self, v, names))
             bases = [v.ty.cls] + list(S.CLASSES[v.ty.cls].get("bases", ()))
             return mk_bool(any(n in bases for n in names))
         prim = {"Int": {"int"}, "Bool": {"bool", "int"}, "Real": {"float"}, "Str": {"str"}, "String": {"str"}}
